@@ -228,135 +228,64 @@ def check_digits(facts, c):
                 "digit value of byte %d (%r) for bases <= 36 must be %d, table has %d" % (ch, chr(ch), exp0[ch], tab[ch]))
         c.check(tab[224 + ch] == exp1[ch], f, "dvtab[224+%d]" % ch,
                 "digit value of byte %d (%r) for bases 37..62 must be %d, table has %d" % (ch, chr(ch), exp1[ch], tab[224 + ch]))
-    # writer side: the alphabets the output functions index with a digit value
+    # writer side: for every documented base, the alphabet each output function has selected when the conversion starts must give
+    # digit d the character the manual prescribes, and the reader's table must map that character back to d
     writers = {"__gmpz_get_str": "mpz/get_str.c", "__gmpz_out_str": "mpz/out_str.c", "__gmpf_get_str": "mpf/get_str.c"}
-    for w, wf in writers.items():
-        strs = [s for _, s in strings_used_by(facts, {w})]
-        alph = [s.rstrip(b"\0") for s in strs if len(s.rstrip(b"\0")) in (36, 62)]
-        c.check(len(alph) == 3, wf, "alphabets:%s" % w, "%s is expected to use three digit alphabets (36 lower, 36 upper, 62 mixed), found %d"
-                % (w, len(alph)), fn=w)
-        kinds = set()
-        for a in alph:
-            if len(a) == 62:
-                kinds.add("mixed")
-                for d in range(62):
-                    c.check(tab[224 + a[d]] == d, wf, "alphabet62[%d]:%s" % (d, w),
-                            "%s writes digit %d of bases 37..62 as %r but the reader's table maps that byte to %d" % (w, d, chr(a[d]), tab[224 + a[d]]), fn=w)
-            else:
-                kinds.add("lower" if a[10:11].islower() else "upper")
-                for d in range(36):
-                    c.check(tab[a[d]] == d, wf, "alphabet36[%d]:%s" % (d, w),
-                            "%s writes digit %d as %r but the reader's table maps that byte to %d" % (w, d, chr(a[d]), tab[a[d]]), fn=w)
-                c.check(a.lower() == lower, wf, "alphabet36-order:%s" % w, "%s: 36-digit alphabet %r is not 0-9a-z in order" % (w, a), fn=w)
-        c.check(kinds == {"lower", "upper", "mixed"}, wf, "alphabet-kinds:%s" % w,
-                "%s must have a lower-case, an upper-case and a 62-digit alphabet; found %s" % (w, sorted(kinds)), fn=w)
-    alphabet_selection(c, writers, lower, upper, mixed)
+    alphabet_selection(c, facts, writers, lower, upper, mixed, tab)
     c.res["samples"].append(dict(rule="R-TABLES", table="__gmp_digit_value_tab", writers=sorted(writers), entries=480))
 
 
-def alphabet_selection(c, writers, lower, upper, mixed):
-    """Which alphabet does each output function pick for each base?  The dispatch at the head of mpz_get_str / mpz_out_str /
-    mpf_get_str only tests and rewrites the int parameter `base` and assigns string literals to one local; it is evaluated for
-    every base of the documented ranges (2..36 lower case, 37..62 digits-upper-lower, -2..-36 upper case) by following the CFG with
-    the base known, branching both ways on conditions about anything else, until the first call or return."""
-    import sa
+def alphabet_selection(c, facts, writers, lower, upper, mixed, tab):
+    import sa, alphasel
     ex = sa.export(sa.cfg_builtfx())
-    byname = {}
-    for path, fn in ex.functions():
-        if fn["name"] in writers and relpath(path) == writers[fn["name"]]:
-            byname[fn["name"]] = fn
+    gstr = {}
+    for g in facts["globals"]:
+        if g.get("constant") and isinstance(g.get("init"), list) and g["type"].startswith("[") and "x i8]" in g["type"]:
+            try:
+                bs = bytes(int(x) for x in g["init"]).split(b"\0")[0]
+            except Exception:
+                continue
+            if bs.startswith(b"0123456789") and not g["name"].startswith(".str"):
+                for key in {g["name"], g["name"].split(".")[0], g["name"].split(".")[-1], g["name"].rsplit(".", 1)[0].split(".")[-1]}:
+                    gstr.setdefault(key, bs)
+    units = {}
+    for path, u in ex.units():
+        units[relpath(path)] = u["functions"]
+    undec = 0
     for w, wf in writers.items():
-        fn = byname.get(w)
+        fns = units.get(wf)
+        fn = next((f for f in (fns or []) if f["name"] == w), None)
         if fn is None:
             raise AnalysisBroken("R-TABLES: %s not found in %s" % (w, wf))
         bases = [p for p in fn["params"] if p.get("name") == "base" and p.get("ct") == "int"]
-        text_ids = set()
-        for b in fn["blocks"]:
-            for el in b["elems"]:
-                e = el["e"]
-                if e.get("k") == "binop" and e["op"] == "=" and e["l"].get("k") == "var" and isinstance(e["r"], dict) and e["r"].get("k") == "str" \
-                        and e["r"].get("len") in (36, 62):
-                    text_ids.add(e["l"]["id"])
-        if len(bases) != 1 or len(text_ids) != 1:
-            raise AnalysisBroken("R-TABLES: cannot identify the base parameter / alphabet variable of %s" % w)
-        bid, tid = bases[0]["id"], next(iter(text_ids))
-        blocks = sa.blocks_by_id(fn)
-
-        def ev(e, env):
-            while isinstance(e, dict) and e.get("k") == "cast":
-                e = e["e"]
-            if not isinstance(e, dict):
-                return None
-            k = e.get("k")
-            if k == "int":
-                return e["v"]
-            if k == "var":
-                return env.get(e["id"])
-            if k == "unop" and e["op"] == "-":
-                v = ev(e["e"], env)
-                return None if v is None else -v
-            if k == "unop" and e["op"] == "!":
-                v = ev(e["e"], env)
-                return None if v is None else int(not v)
-            if k == "binop" and e["op"] in ("+", "-", "<", ">", "<=", ">=", "==", "!="):
-                l, r = ev(e["l"], env), ev(e["r"], env)
-                if l is None or r is None:
-                    return None
-                return {"+": l + r, "-": l - r, "<": int(l < r), ">": int(l > r), "<=": int(l <= r), ">=": int(l >= r),
-                        "==": int(l == r), "!=": int(l != r)}[e["op"]]
-            return None
-
-        def explore(b0):
-            out = set()
-            todo = [(fn["entry"], b0, None, 0)]
-            while todo:
-                cur, base, text, depth = todo.pop()
-                if depth > 60:
-                    out.add(("?", text))
-                    continue
-                b = blocks[cur]
-                env = {bid: base}
-                stop = False
-                for el in b["elems"]:
-                    e = el["e"]
-                    k = e.get("k")
-                    if k == "call":
-                        out.add(("work", text))
-                        stop = True
-                        break
-                    if k == "return":
-                        out.add(("return", text))
-                        stop = True
-                        break
-                    if k == "binop" and e["op"] == "=" and e["l"].get("k") == "var":
-                        if e["l"]["id"] == bid:
-                            env[bid] = ev(e["r"], env)
-                        elif e["l"]["id"] == tid:
-                            r = e["r"]
-                            text = r["v"].encode("latin1") if isinstance(r, dict) and r.get("k") == "str" else b"?"
-                if stop or b.get("noreturn"):
-                    continue
-                base = env[bid]
-                succs = [s_ for s_ in b["succs"] if isinstance(s_, int)]
-                t = b.get("term")
-                if t and t.get("cond") and len(b["succs"]) == 2:
-                    v = ev(sa.strip_expect(sa.effective_cond(t)), env) if base is not None else None
-                    if v is not None:
-                        succs = [b["succs"][0] if v else b["succs"][1]]
-                for s_ in succs:
-                    if isinstance(s_, int):
-                        if s_ == fn["exit"]:
-                            out.add(("return", text))
-                        else:
-                            todo.append((s_, base, text, depth + 1))
-            return out
+        if len(bases) != 1:
+            raise AnalysisBroken("R-TABLES: %s has no `int base` parameter" % w)
+        decided = 0
         for base in list(range(2, 63)) + list(range(-36, -1)):
             want = lower if 2 <= base <= 36 else (mixed if base >= 37 else upper)
-            got = explore(base)
-            texts = {t for kind, t in got if kind == "work"}
-            c.check(texts == {want}, wf, "alphabet-for-base:%s:%d" % (w, base),
-                    "%s converts with %s for base %d, the manual prescribes %r" % (w, sorted(x.decode("latin1") if x else "no alphabet / return" for x in texts) or
-                                                                                   "no conversion (returns)", base, want.decode("latin1")), fn=w)
+            got = alphasel.alphabets_for_base(fn, fns, gstr, bases[0], base)
+            c.res["stats"]["alphabet_obligations"] += 1
+            if got is None or not got:
+                undec += 1
+                continue
+            decided += 1
+            n = abs(base)
+            half = 224 if base > 36 else 0
+            for t in got:
+                if t == "reject":
+                    c.check(False, wf, "alphabet-for-base:%s:%d" % (w, base), "%s returns without converting for the documented base %d" % (w, base), fn=w)
+                    continue
+                ok = len(t) >= n and t[:n] == want[:n]
+                c.check(ok, wf, "alphabet-for-base:%s:%d" % (w, base),
+                        "%s writes the digits of base %d with %r, the manual prescribes %r" % (w, base, t[:n].decode("latin1"), want[:n].decode("latin1")), fn=w)
+                if ok:
+                    bad = [d for d in range(n) if tab[half + t[d]] != d]
+                    c.check(not bad, wf, "alphabet-reader:%s:%d" % (w, base),
+                            "%s writes digit %s of base %d as %r but the reader's table maps that byte to %d"
+                            % (w, bad[:1], base, chr(t[bad[0]]) if bad else "", tab[half + t[bad[0]]] if bad else -1), fn=w)
+        if decided == 0:
+            raise AnalysisBroken("R-TABLES: the base dispatch of %s could not be evaluated for any base (anchor moved?)" % w)
+    c.res["stats"]["alphabet_undecided"] += undec
 
 
 def check_comb(facts, c, macro_units):
@@ -725,6 +654,34 @@ def run_digit_index(prop="C06", tier="quick"):
                             if "init" in d:
                                 defs[d["var"]["id"]].append((el["line"], d["init"]))
                 sa.walk(el["e"], h)
+        def interval(e, depth):
+            """[lo, hi] of an index expression built from byte-typed parts, constants, +, ?: and variables all of whose definitions
+            have an interval; None otherwise"""
+            while isinstance(e, dict) and e.get("k") == "cast" and e.get("ct") in ("int", "unsigned int", "long", "unsigned long", "size_t"):
+                e = e["e"]
+            if not isinstance(e, dict) or depth > 4:
+                return None
+            k = e.get("k")
+            if k == "int":
+                return (e["v"], e["v"])
+            if byte_typed(e):
+                return (0, 255)
+            if k == "binop" and e["op"] == "+":
+                a, b_ = interval(e["l"], depth + 1), interval(e["r"], depth + 1)
+                return None if a is None or b_ is None else (a[0] + b_[0], a[1] + b_[1])
+            if k == "cond":
+                a, b_ = interval(e["a"], depth + 1), interval(e["b"], depth + 1)
+                return None if a is None or b_ is None else (min(a[0], b_[0]), max(a[1], b_[1]))
+            if k == "var":
+                ds = defs.get(e["id"], [])
+                if not ds:
+                    return None
+                ivs = [interval(r, depth + 1) if r is not None else None for _, r in ds]
+                if any(v is None for v in ivs):
+                    return None
+                return (min(v[0] for v in ivs), max(v[1] for v in ivs))
+            return None
+
         for b in fn["blocks"]:
             elems = [(el["line"], el["e"]) for el in b["elems"]]
             t = b.get("term")
@@ -749,6 +706,12 @@ def run_digit_index(prop="C06", tier="quick"):
                         badd = [(l, r) for (l, r) in ds if r is None or not byte_typed(r)]
                         ok = bool(ds) and not badd
                         bad = badd[0][0] if badd else None
+                    if not ok:
+                        # digit_value_tab[offset + c] with offset in {0, 224}: an interval over byte-typed parts and small constants
+                        iv = interval(idx, 0)
+                        direct = isinstance(bs, dict) and bs.get("name") == "__gmp_digit_value_tab"
+                        if iv is not None and iv[0] >= 0 and iv[1] <= (479 if direct else 255):
+                            ok = True
                     if not ok:
                         nm = idx.get("name", "<expr>")
                         res["findings"].append(Finding(prop, "R-TABIDX.digit", fn["file"], line, fn["name"], "digit-index:%s" % nm,
